@@ -25,6 +25,9 @@ struct Model {
     jitter: bool,
     restart: bool,
     extra_tasks: bool,
+    /// module b panics at its third message: the run ends with an error (used between the two
+    /// executions of every case, never as a compared case itself)
+    boom: bool,
 }
 
 struct Node {
@@ -97,6 +100,7 @@ impl Module for Node {
         let me = current().path().to_string();
         self.n += 1;
         lg(&self.log, format!("{me} msg kind={} id={} n={}", m.header().kind, m.header().id, self.n));
+        assert!(!(self.model.boom && me == "b" && self.n == 3), "module b gives up");
         if m.header().kind == 7 {
             current().shutdow_and_restart_in(Duration::from_millis(5 + des::runtime::random::<u64>() % 10));
             return;
@@ -190,7 +194,7 @@ fn models() -> Vec<Model> {
         for jitter in [false, true] {
             for restart in [false, true] {
                 for extra_tasks in [false, true] {
-                    v.push(Model { topo, jitter, restart, extra_tasks });
+                    v.push(Model { topo, jitter, restart, extra_tasks, boom: false });
                 }
             }
         }
@@ -231,7 +235,7 @@ impl Property for C04 {
     fn rule(&self, tier: Tier) -> String {
         format!(
             "grid: topology {{pair, ring of 3, star of 3 with submodules and a gate cluster, NDL-built network of 7 with a module cluster and four gate groups per module type}} x channel jitter {{0, 1 ms}} x module restart at a random-drawn time on/off x extra interval/sample tasks on/off = 32 models, x seeds {:?}; \
-             every module draws random() in handlers and tasks, sends last messages from at_sim_end (which must not surface in any later simulation), runs an unbiased 4-way select! over equal deadlines and a receive, and sends over random subsets of its gates; each (model, seed) is run by two different worker processes, in each of them twice (the second time after other simulations ran in that process); \
+             every module draws random() in handlers and tasks, sends last messages from at_sim_end (which must not surface in any later simulation), runs an unbiased 4-way select! over equal deadlines and a receive, and sends over random subsets of its gates; each (model, seed) is run by two different worker processes, in each of them twice (the second time after other simulations ran in that process, among them runs that ended with an error); \
              the complete traces (time, module path, callback, message kind/id, drawn values, select branch, tick times, final time, event count, result) must be identical in all four executions; per model the traces of different seeds must differ; \
              plus one forced two-thread schedule (a Builder::build in another thread waits for the simulation lock while a simulation is paused between two steps: clock and random() history of the paused simulation must equal the run without the visitor); \
              a case is one (model, seed); non-trivial = every case (all draw randomness)",
@@ -245,7 +249,7 @@ impl Property for C04 {
         ]
     }
     fn required_features(&self, _tier: Tier) -> Vec<&'static str> {
-        vec!["same_process_rerun", "ndl_model", "jitter_model", "restart_model", "seeds_distinguish_traces", "cross_process_comparison", "builder_waiting_in_another_thread"]
+        vec!["same_process_rerun", "ndl_model", "jitter_model", "restart_model", "seeds_distinguish_traces", "cross_process_comparison", "builder_waiting_in_another_thread", "failed_run_in_between"]
     }
     fn explore(&self, ctx: &mut Ctx) {
         if ctx.is_first_shard() {
@@ -285,6 +289,14 @@ impl Property for C04 {
                 }
                 Err(m) => ctx.violation("violation", || model_json(&ms[mi], s), format!("panicked: {m}")),
             }
+        }
+        // in between: simulations that end with an error (a module panics) over jittered links
+        for topo in [0u8, 1, 3] {
+            let r = run(Model { topo, jitter: true, restart: false, extra_tasks: true, boom: true }, 7);
+            if !r.is_ok_and(|t| t.contains("\nerr ")) {
+                ctx.out.capped.push("MACHINERY: the deliberately failing simulation did not end with an error".into());
+            }
+            ctx.hit("failed_run_in_between");
         }
         for &(mi, s) in mine.iter().rev() {
             let Some(t1) = first.get(&(mi, s)) else { continue };
@@ -374,10 +386,11 @@ impl Property for C04 {
         if case.get("probe").and_then(Value::as_str) == Some("waiting_builder") {
             return quiet_catch(vcheck::threadlab::waiting_builder_probe).map_err(|m| format!("panicked: {m}"))?.map(|_| ());
         }
-        let m = Model { topo: case["topo"].as_u64().unwrap() as u8, jitter: case["jitter"].as_bool().unwrap(), restart: case["restart"].as_bool().unwrap(), extra_tasks: case["extra_tasks"].as_bool().unwrap() };
+        let m = Model { topo: case["topo"].as_u64().unwrap() as u8, jitter: case["jitter"].as_bool().unwrap(), restart: case["restart"].as_bool().unwrap(), extra_tasks: case["extra_tasks"].as_bool().unwrap(), boom: false };
         let s = case["seed"].as_u64().unwrap();
         let t1 = run(m, s).map_err(|e| format!("panicked: {e}"))?;
         let _ = run(Model { topo: (m.topo + 1) % 4, ..m }, s + 1);
+        let _ = run(Model { topo: 0, jitter: true, restart: false, extra_tasks: true, boom: true }, 7);
         let t2 = run(m, s).map_err(|e| format!("panicked: {e}"))?;
         if t1 != t2 {
             return Err(format!("two executions in one process differ: {}", first_diff(&t1, &t2)));
@@ -397,7 +410,7 @@ fn main() {
     let args: Vec<String> = std::env::args().collect();
     if args.len() == 3 && args[1] == "--trace-fp" {
         let case: Value = vcheck::serde_json::from_str(&args[2]).unwrap();
-        let m = Model { topo: case["topo"].as_u64().unwrap() as u8, jitter: case["jitter"].as_bool().unwrap(), restart: case["restart"].as_bool().unwrap(), extra_tasks: case["extra_tasks"].as_bool().unwrap() };
+        let m = Model { topo: case["topo"].as_u64().unwrap() as u8, jitter: case["jitter"].as_bool().unwrap(), restart: case["restart"].as_bool().unwrap(), extra_tasks: case["extra_tasks"].as_bool().unwrap(), boom: false };
         let t = run(m, case["seed"].as_u64().unwrap()).unwrap_or_default();
         println!("{:016x}", vcheck::fp(&t));
         return;
